@@ -42,7 +42,7 @@ def enc_chain(c):
     cls = lst(c["clients"], lambda x: "(%s, mkClient %s %s %s %s)" % (
         N(x[0]), b(x[1]), H(x[2]), N(x[3]),
         lst(x[4], lambda y: "(%s, (%s, %s))" % (H(y[0]), N(y[1]), N(y[2])))))
-    return "(init_wchain %s %s)" % (chain, cls)
+    return "(init_wchain %s %s %s)" % (chain, cls, N(c["ver"]))
 
 def enc_p1(p):
     return "(mkP1 %s %s %s %s %s %s %s %s)" % (N(p["seq"]), N(p["sp"]), N(p["sc"]), N(p["dp"]), N(p["dc"]), N(p["data"]), H(p["th"]), N(p["tt"]))
